@@ -529,6 +529,30 @@ def berOp (op : String) (j : Json) : Except String Json := do
       (← bytesOfJson (← j.getObjVal? "pdu")))))
   | _ => throw s!"bad-op {op}"
 
+/-! ### request datagrams (C05) -/
+def pduClassOfKind : String → Except String String
+  | "get" => pure "GetRequest" | "getnext" => pure "GetNextRequest" | "set" => pure "SetRequest"
+  | "getbulk" => pure "BulkGetRequest" | k => throw s!"bad request kind {k}"
+
+def emitV3 (v : Json) (pdu : Bytes) : Except String Json := do
+  let spdu := Ber.encodeScoped (← bytesOfJson (← v.getObjVal? "ctx_engine")) (← bytesOfJson (← v.getObjVal? "ctx_name")) pdu
+  let msgData ← match v.getObjVal? "ciphertext" with
+    | .ok c => do pure (Ber.tlv 4 (← bytesOfJson c))
+    | .error _ => pure spdu
+  let sp := Ber.encodeUsmParams (← bytesOfJson (← v.getObjVal? "engine_id")) (← getInt v "boots") (← getInt v "time")
+    (← bytesOfJson (← v.getObjVal? "user")) (← bytesOfJson (← v.getObjVal? "auth")) (← bytesOfJson (← v.getObjVal? "priv"))
+  let hdr := Ber.encodeHeader (← getInt v "msg_id") (← getInt v "max_size") (← getNat v "flags") 3
+  pure (Json.mkObj [("datagram", toJson (toHex (Ber.encodeV3Msg hdr sp msgData))), ("scoped", toJson (toHex spdu))])
+
+def emitOp (j : Json) : Except String Json := do
+  let cls ← pduClassOfKind (← j.getObjValAs? String "kind")
+  let pduOpt := Ber.encodePdu cls (← getInt j "rid") (← getInt j "a") (← getInt j "b") (← vbsOfJson (← j.getObjVal? "vbs"))
+  let some pdu := pduOpt | pure Json.null
+  match j.getObjVal? "v3" with
+  | .error _ =>
+    pure (toJson (toHex (Ber.encodeCommunityMsg (← getInt j "version") (← bytesOfJson (← j.getObjVal? "community")) pdu)))
+  | .ok v => emitV3 v pdu
+
 def handle (j : Json) : Except String Json := do
   let op ← j.getObjValAs? String "op"
   match op with
@@ -544,6 +568,7 @@ def handle (j : Json) : Except String Json := do
   | "ops.run" => opsRun j
   | "cfg.run" => cfgRun j
   | "py.wrap" => pyWrap j
+  | "emit" => emitOp j
   | "conc.run" => concRun j
   | "disco.run" => discoRun j
   | "trap.run" => trapRun j
